@@ -117,6 +117,7 @@ type ssCall struct {
 	HHi   bool   `json:"height_hi,omitempty"` // cancel: the precompile is given creation height + 2^64 (no native message can carry it: recorded, nothing demanded)
 	Rcv   string `json:"rcv,omitempty"`   // transfer: receiver "" (an address) | empty | long
 	Memo  string `json:"memo,omitempty"`  // transfer: memo "" | long
+	Tmo   string `json:"tmo,omitempty"`   // transfer: timeout "" (height 1-1000, no timestamp) | zero (neither) | passed (height 1-1) | max (2^64-1 everywhere) | stamp (timestamp only, 2^63)
 	CV    *ssCreate `json:"cv,omitempty"` // createval: the arguments
 	Entry int    `json:"entry,omitempty"` // cancel: index of the signer's unbonding entry whose creation height is passed; -1 = a height without an entry
 	To    int    `json:"to,omitempty"`    // setwithdraw target
@@ -557,6 +558,28 @@ func ssReceiver(kind string) string {
 	return "cosmos1receiver0"
 }
 
+func ssTimeoutHeight(kind string) clienttypes.Height {
+	switch kind {
+	case "zero", "stamp":
+		return clienttypes.NewHeight(0, 0)
+	case "passed":
+		return clienttypes.NewHeight(1, 1)
+	case "max":
+		return clienttypes.NewHeight(^uint64(0), ^uint64(0))
+	}
+	return clienttypes.NewHeight(1, 1000)
+}
+
+func ssTimeoutStamp(kind string) uint64 {
+	switch kind {
+	case "max":
+		return ^uint64(0)
+	case "stamp":
+		return 1 << 63
+	}
+	return 0
+}
+
 func ssMemo(kind string) string {
 	if kind == "long" {
 		return strings.Repeat("m", 40000)
@@ -612,7 +635,7 @@ func (e *ssEnv) pack(in ssInput, r ssResolved) (to common.Address, data []byte, 
 		data, err = e.dABI.Pack("withdrawValidatorCommission", vs)
 		to = evmAddr[aPD]
 	case "transfer":
-		data, err = e.iABI.Pack("transfer", "transfer", ssChan(c.Chan), utils.BaseDenom, amt, who, ssReceiver(c.Rcv), clienttypes.NewHeight(1, 1000), uint64(0), ssMemo(c.Memo))
+		data, err = e.iABI.Pack("transfer", "transfer", ssChan(c.Chan), utils.BaseDenom, amt, who, ssReceiver(c.Rcv), ssTimeoutHeight(c.Tmo), ssTimeoutStamp(c.Tmo), ssMemo(c.Memo))
 		to = paICS
 	default:
 		err = fmt.Errorf("unknown method %q", c.M)
@@ -657,7 +680,7 @@ func (e *ssEnv) natives(in ssInput, r ssResolved) ([]sdk.Msg, []int, error) {
 	case "commission":
 		return []sdk.Msg{&distrtypes.MsgWithdrawValidatorCommission{ValidatorAddress: va}}, nil, nil
 	case "transfer":
-		return []sdk.Msg{transfertypes.NewMsgTransfer("transfer", ssChan(c.Chan), coin, who.String(), ssReceiver(c.Rcv), clienttypes.NewHeight(1, 1000), 0, ssMemo(c.Memo))}, nil, nil
+		return []sdk.Msg{transfertypes.NewMsgTransfer("transfer", ssChan(c.Chan), coin, who.String(), ssReceiver(c.Rcv), ssTimeoutHeight(c.Tmo), ssTimeoutStamp(c.Tmo), ssMemo(c.Memo))}, nil, nil
 	}
 	return nil, nil, fmt.Errorf("unknown method %q", c.M)
 }
@@ -1204,8 +1227,8 @@ func ssTags(in ssInput, pre ssSnap, r ssResolved, obs ssObs) []string {
 	if c.ToS != "" && c.M == "setwithdraw" {
 		tags = append(tags, "withdrawer-arg:"+c.ToS)
 	}
-	if c.M == "transfer" && (c.Rcv != "" || c.Memo != "") {
-		tags = append(tags, "transfer:receiver="+c.Rcv+":memo="+c.Memo)
+	if c.M == "transfer" && (c.Rcv != "" || c.Memo != "" || c.Tmo != "") {
+		tags = append(tags, "transfer:receiver="+c.Rcv+":memo="+c.Memo+":timeout="+c.Tmo)
 	}
 	if len(obs.ScriptErrs) > 0 {
 		tags = append(tags, "script-op-failed")
@@ -1405,6 +1428,9 @@ func ssRandCall(r *Rng, m string, v int) ssCall {
 		}
 		if r.Chance(4) {
 			c.Memo = "long"
+		}
+		if r.Chance(12) {
+			c.Tmo = []string{"zero", "passed", "max", "stamp"}[r.Intn(4)]
 		}
 	}
 	return c
